@@ -8,7 +8,7 @@ from . import common_pp
 ID = 'C06'
 LEVEL = 'exploration'
 RULE = (
-    'cases = a waiting process (or a workchain awaiting futures/children) with wake-up events (resume(v1), resume(v2), '
+    'cases = a waiting process (or a workchain awaiting futures/children) with wake-up events (resume(v1), resume(None), '
     'completion of each awaitable) and pause/play requests in every order and every tick gap <=G (enumerated completely '
     'at the listed scopes; Hypothesis adds longer gaps, more waits and generated programs); the completion phase only '
     'plays and drains and never re-delivers a wake-up; non-trivial = a wake-up and a pause/play request fall between the '
@@ -22,7 +22,7 @@ BUDGET = {
     'quick': {'enum': ['p3', 'w2', 'wfail'], 'hyp': 2000, 'shards': 8},
     'thorough': {'enum': ['p3', 'p4', 'w2', 'w3', 'wfail'], 'hyp': 100000, 'shards': 16},
 }
-ALPHABET = [['resume', 'v1'], ['resume', 'v2'], ['pause', 'pm'], ['play']]
+ALPHABET = [['resume', 'v1'], ['resume', None], ['pause', 'pm'], ['play']]
 
 
 def enumerate_cases(tier, scope):
